@@ -136,7 +136,10 @@ def make_shape(rtag, repr_attr, ty, lname, variants, gname, gdecl, guse, gextra,
     ne = " && ".join("n != Mirror::%s as %s" % (n, ty) for n, k, d in variants if fieldless(k))
     covers = ["                    kani::cover!(matches!(v, E::%s), \"reach Ok(%s)\");" % (pattern(n, k), n)
               for n, k, d in variants if fieldless(k)]
-    n_fieldless = sum(1 for n, k, d in variants if fieldless(k))
+    if len(covers) > 12:
+        # 140-variant enums: a reachability witness (and, on a failure, a playback test) per variant is not affordable - first, middle, last
+        covers = [covers[0], covers[len(covers) // 2], covers[-1]]
+    n_fieldless = len(covers)
     src = """// C12 shape: repr=%(ty)s layout=%(lname)s generics=%(gname)s
 #![allow(dead_code, unused, clippy::all)]
 pub const K_BASE: %(ty)s = 40;
